@@ -137,6 +137,7 @@ func TestGovcStandinFilter(t *testing.T) {
 		KnownClass      int      `json:"in_known_class_incr_ne_naive"`
 		OpenDisagree    int      `json:"open_disagrees_with_walk"`
 		OrderViolations int      `json:"order_or_duplicate_violations"`
+		FollowHandover  int      `json:"follow_path_handover_changes_selection"`
 		Samples         []string `json:"samples"`
 		Failures        []string `json:"failures"`
 	}
@@ -228,6 +229,60 @@ func TestGovcStandinFilter(t *testing.T) {
 				}
 				if len(r.Samples) < 5 && r.Evaluations%997 == 1 {
 					r.Samples = append(r.Samples, desc+" -> ["+gk+"]")
+				}
+			}
+		}
+	}
+	// The hand-over of follow-paths: with a non-nil (here: empty) list of follow-paths NewFilterFS
+	// merges the followed locations into the caller's include patterns and removes nested entries.
+	// That step must not change what the caller's patterns select (later patterns override earlier
+	// ones; only an entry below the one kept just before it is redundant).
+	extra := [][]string{{"a", "!a/b", "a/b/c"}, {"a", "!a/b", "a/b"}, {"d1", "!d1/f1", "d1/f1"}, {"*", "!*/f1", "d1/f1"}}
+	for _, tr := range standinTrees {
+		root := t.TempDir()
+		for _, d := range tr.dirs {
+			os.MkdirAll(filepath.Join(root, d), 0755)
+		}
+		for _, f := range tr.files {
+			os.WriteFile(filepath.Join(root, f), []byte("data:"+f), 0644)
+		}
+		base, err := NewFS(root)
+		if err != nil {
+			t.Fatal(err)
+		}
+		walkKey := func(opt *FilterOpt) (string, bool) {
+			view, err := NewFilterFS(base, opt)
+			if err != nil {
+				return "", false
+			}
+			got := map[string]bool{}
+			view.Walk(context.Background(), "", func(p string, e gofs.DirEntry, err error) error {
+				if err != nil {
+					return err
+				}
+				got[p] = true
+				return nil
+			})
+			return standinKey(got), true
+		}
+		var ls [][]string
+		for _, l := range lists {
+			if len(l) == 2 {
+				ls = append(ls, l)
+			}
+		}
+		ls = append(ls, extra...)
+		for _, inc := range ls {
+			a, ok1 := walkKey(&FilterOpt{IncludePatterns: inc})
+			b, ok2 := walkKey(&FilterOpt{IncludePatterns: inc, FollowPaths: []string{}})
+			if !ok1 || !ok2 {
+				continue
+			}
+			r.Evaluations++
+			if a != b {
+				r.FollowHandover++
+				if len(r.Failures) < 10 {
+					r.Failures = append(r.Failures, fmt.Sprintf("follow-path hand-over changes the selection: %s inc=%v plain=[%s] with-follow-paths=[%s]", tr.name, inc, a, b))
 				}
 			}
 		}
